@@ -402,6 +402,20 @@ pub fn apply(enc: &mut Enc, machine: &str, field: &str, class: &str, reps: &Reps
             *enc.get_mut(field).unwrap() = v.to_le_bytes().to_vec();
             Ok(())
         }
+        ["pk", "len", i] if class == "over" => {
+            // a consistent over-degree polynomial: one more (non-zero,
+            // canonical) coefficient, announced length and section length
+            // adjusted
+            let b = enc.get(field).ok_or(format!("no field {field}"))?.clone();
+            let actual = u64::from_le_bytes(b.as_slice().try_into().unwrap());
+            *enc.get_mut(field).unwrap() = (actual + 1).to_le_bytes().to_vec();
+            let coef = enc.get_mut(&format!("pk.coef.{i}")).ok_or("no coefficient field")?;
+            coef.extend_from_slice(&dusk_bls12_381::BlsScalar::from(5u64).to_bytes());
+            let h = enc.get("hdr.pk_len").ok_or("no hdr.pk_len")?.clone();
+            let a = u64::from_be_bytes(h.as_slice().try_into().unwrap());
+            *enc.get_mut("hdr.pk_len").unwrap() = (a + 32).to_be_bytes().to_vec();
+            Ok(())
+        }
         ["pk", "len", _] => {
             let b = enc.get(field).ok_or(format!("no field {field}"))?.clone();
             let actual = u64::from_le_bytes(b.as_slice().try_into().unwrap());
